@@ -30,12 +30,12 @@ func TestVerifReplay(t *testing.T) {
 		OwnerReferences: []metav1.OwnerReference{{Name: "pkg", UID: "pkg-uid", Kind: "Provider", Controller: ptr.To(true)}}}}
 	parent.SetGroupVersionKind(v1.ProviderRevisionGroupVersionKind)
 	owners := map[string][]metav1.OwnerReference{
-		"no owner":                          nil,
-		"this revision controls":            {{Name: "pkg-bbb", UID: "rev-2-uid", Kind: "ProviderRevision", Controller: ptr.To(true)}},
-		"this revision is a plain owner":    {{Name: "pkg-bbb", UID: "rev-2-uid", Kind: "ProviderRevision", Controller: ptr.To(false)}},
+		"no owner":                               nil,
+		"this revision controls":                 {{Name: "pkg-bbb", UID: "rev-2-uid", Kind: "ProviderRevision", Controller: ptr.To(true)}},
+		"this revision is a plain owner":         {{Name: "pkg-bbb", UID: "rev-2-uid", Kind: "ProviderRevision", Controller: ptr.To(false)}},
 		"older revision of the package controls": {{Name: "pkg-aaa", UID: "rev-1-uid", Kind: "ProviderRevision", Controller: ptr.To(true)}, {Name: "pkg", UID: "pkg-uid", Kind: "Provider", Controller: ptr.To(false)}},
-		"a foreign controller":              {{Name: "someone", UID: "foreign-uid", Kind: "Deployment", Controller: ptr.To(true)}},
-		"a foreign plain owner":             {{Name: "someone", UID: "foreign-uid", Kind: "Deployment"}},
+		"a foreign controller":                   {{Name: "someone", UID: "foreign-uid", Kind: "Deployment", Controller: ptr.To(true)}},
+		"a foreign plain owner":                  {{Name: "someone", UID: "foreign-uid", Kind: "Deployment"}},
 	}
 	n := 0
 	for oname, refs := range owners {
